@@ -24,7 +24,17 @@ import (
 // loopback is used.
 
 //sym:stub (*github.com/gorilla/websocket.Conn).WriteMessage
-func Stub_wsWriteMessage(c *websocket.Conn, messageType int, data []byte) error { return nil }
+func Stub_wsWriteMessage(c *websocket.Conn, messageType int, data []byte) error {
+	if c11CloseSent {
+		return websocket.ErrCloseSent
+	}
+	return nil
+}
+
+// c11CloseSent: the library already sent a Close frame on this connection
+// (it echoes the peer's close handshake and answers frames that are invalid at
+// websocket level by itself): every later write fails with ErrCloseSent.
+var c11CloseSent bool
 
 //sym:stub (*github.com/gorilla/websocket.Conn).Close
 func Stub_wsClose(c *websocket.Conn) error { return nil }
@@ -285,6 +295,9 @@ func c11New(me *c11ME, ex *c11Exec, cf *c11Conf, initMode int) *wsConnection {
 		}
 	}
 	conn := c11Conn()
+	if c11CloseSent && !zzsym.Symbolic() {
+		conn.WriteControl(websocket.CloseMessage, websocket.FormatCloseMessage(websocket.CloseNormalClosure, ""), time.Now().Add(time.Second))
+	}
 	zzsym.Baseline()
 	return &wsConnection{
 		active: map[string]context.CancelFunc{}, conn: conn, ctx: context.Background(), exec: ex, me: me,
@@ -428,6 +441,8 @@ func c11Frame(k int) c11In {
 func Harness_C11_run() {
 	c11Subprotocol = []string{graphqlwsSubprotocol, graphqltransportwsSubprotocol}[zzsym.Choice("subprotocol", 2)]
 	n := 1 + zzsym.Choice("len", zzsym.Param("maxlen", 3))
+	c11CloseSent = zzsym.Choice("closesent", 2) == 1
+	defer func() { c11CloseSent = false }()
 	me := &c11ME{preemptRead: true}
 	started := map[string]int{}
 	terminated := false
